@@ -144,7 +144,7 @@ func (w *World) iterOp(t []string) string {
 		out = append(out, errClass(err))
 	}
 	// the producer goroutine must exit and release the version it pinned
-	deadline := time.Now().Add(3 * time.Second)
+	deadline := time.Now().Add(2 * time.Second)
 	for time.Now().Before(deadline) {
 		if runtime.NumGoroutine() <= base && gkvlite.VerifRoot(c).Refs == refs0 {
 			break
@@ -153,9 +153,11 @@ func (w *World) iterOp(t []string) string {
 	}
 	if g := runtime.NumGoroutine(); g > base {
 		out = append(out, fmt.Sprintf("goroutine-leak:%d", g-base))
+		w.dead = true // the process now carries a stuck goroutine: stop here
 	}
 	if r := gkvlite.VerifRoot(c).Refs; r != refs0 {
 		out = append(out, fmt.Sprintf("pin-leak:%d", r-refs0))
+		w.dead = true
 	}
 	return strings.Join(out, ",")
 }
